@@ -621,6 +621,14 @@ def rule_lying_iter(ctx):
     r(ctx)
 
 
+def rule_init_before_publish(ctx):
+    """An item moved into its slot is dropped at teardown only if its entry was activated: the activation follows the
+    write of the same entry directly, so that an unwind later in `extend` (a panicking callback / iterator) cannot
+    leave written-but-inactive entries behind (shared with C08.init-before-publish)."""
+    from props.c08 import rule_init_before_publish as r
+    r(ctx)
+
+
 def rules(ctx):
     ctx.run_rule("C11.lying-iter", rule_lying_iter)
     ctx.run_rule("C11.drop-visits-all", rule_drop_visits_all)
@@ -629,3 +637,4 @@ def rules(ctx):
     ctx.run_rule("C11.panic-order", rule_panic_order)
     ctx.run_rule("C11.keep-alive", rule_keep_alive)
     ctx.run_rule("C11.lifetime-witness", rule_lifetime_witness)
+    ctx.run_rule("C11.init-before-publish", rule_init_before_publish)
